@@ -748,7 +748,7 @@ class HistGen:
             claims = [gen_pat(self.rng, 1, self.cfg) for _ in range(self.rng.randrange(3))]
         return claims, calls, sh
 
-    def module_history(self, n_ax, n_cl, extra=0.15):
+    def module_history(self, n_ax, n_cl, extra=0.15, permute=0.0, repeat_ax=0.0):
         """gamma (axioms published), claims (reversed), proofs: the shape proof.py produces, with
         random extra moves in between (probability `extra` after each item) -> (claims, calls, shadow)"""
         rng, cfg = self.rng, self.cfg
@@ -773,6 +773,27 @@ class HistGen:
             sh.memory.append(('T', a))
             sh.mark_top()
             extras()
+            if rng.random() < repeat_ax:
+                # the same theory reached again (diamond import): an EQUAL axiom is published once more,
+                # possibly written with notation; the checker gets one memory slot per publish
+                b = rng.choice(axioms)
+                if rng.random() < 0.5:
+                    build_calls(notate(rng, b), calls)
+                else:
+                    build_calls(b, calls)
+                sh.stack.append(('P', b))
+                calls.append('pa:' + show(self.arg(b)))
+                sh.memory.append(('T', b))
+                sh.mark_top()
+                if rng.random() < 0.5:
+                    # save / load around the repeated slot
+                    c = gen_pat(rng, 1, cfg)
+                    build_calls(c, calls)
+                    sh.stack.append(('P', c))
+                    calls.append('sa:' + show_term(('P', c)))
+                    sh.memory.append(('P', c))
+                    calls.append('lo:' + show_term(('P', self.arg(c))))
+                    sh.stack.append(('P', c))
         calls.append('ic')
         sh.phase = 'C'
         sh.stack = []
@@ -787,6 +808,13 @@ class HistGen:
             else:
                 k = rng.choice([PROP1, PROP2, PROP3, QUANT])
                 proofs.append((k, None, None))
+        # distinct claims (ProofExp.add_claim asserts it; the order of the proofs only matters then)
+        seen, uniq = [], []
+        for pr in proofs:
+            if pr[0] not in seen:
+                seen.append(pr[0])
+                uniq.append(pr)
+        proofs = uniq
         claims = [c for c, _, _ in proofs]
         extras()
         for c, _, _ in reversed(proofs):
@@ -800,7 +828,13 @@ class HistGen:
         sh.stack = []
         sh.residue = set()
         extras()
-        for c, A, q in proofs:
+        order = list(proofs)
+        if len(order) >= 2 and rng.random() < permute:
+            # proofs published in ANOTHER order than the claims: the checker's Publish must equal the NEXT
+            # claim, so the tracker has to refuse at the first out-of-place publish_proof
+            while order == proofs:
+                rng.shuffle(order)
+        for c, A, q in order:
             if A is None:
                 calls.append({id(PROP1): 'p1', id(PROP2): 'p2', id(PROP3): 'p3', id(QUANT): 'qu'}[id(c)])
             else:
